@@ -14,14 +14,14 @@ LEVEL = 'exploration'
 TECHNIQUE = ('model-based / stateful: operation histories (Hypothesis-generated long sequences and bounded-exhaustive '
              'short ones) run in lock-step against a list model of live (key, id) items')
 RULE = ("A case is (heap kind min|max, key range, operation history). Operations: push(k), pop, peek, "
-        "decrease_key(live handle i, new key k' <= k) [increase for the max-heap], remove(live handle i), len/bool; "
+        "decrease_key(live handle i, new key k' <= k) [increase for the max-heap], an attempted key change on the wrong side (documented to raise ValueError; the queue must carry on unchanged), remove(live handle i), len/bool; "
         "handles are the HeapNodes returned by push and only live handles are used (the documented precondition). "
         "Generated: sequences of up to 60 (quick) / 400 (thorough) operations over keys {0..3} (many duplicates) or "
         "{0..50}, plus 200-2000-operation sequences in the thorough tier. Bounded exhaustive: every sequence of length "
         "<= 5 (quick) / 6 (thorough) over a 14-letter operation alphabet with keys {0,1,2} and handles addressed by "
         "live position, for both heap kinds. Oracle after every step: len(heap) == number of live items, bool agrees, "
         "peek()/pop() return a live item whose key equals the model's minimum (maximum), never a removed one; utils."
-        "smallest/largest agree with sorted(). Non-trivial: a decrease_key or remove executed after at least one pop "
+        "smallest/largest (single list or several arguments, n in {1,2,3,5,12}, key functions none / negation / mod 3 / abs / constant) return min(n, len) input items whose keys are the n best keys of sorted(). Non-trivial: a decrease_key or remove executed after at least one pop "
         "(post-consolidation). Distinct by case hash (enumerated sequences are distinct by construction).")
 ASSUMPTIONS = [
     "remove() and decrease_key() are only applied to live nodes of the same heap, as their docstrings require",
@@ -32,14 +32,29 @@ MANIFEST_TEXT = ("Model-based history exploration of FibonacciHeap and MaxFibona
                  "consolidation, cuts and cascading cuts after pops are exercised; every step is compared with a list model.")
 MANIFEST_NOTE = "Trusts the 20-line list model in this module."
 DESIGN_REF = 'DESIGN.md section 3, C16'
-SHRINK = {'lists': ['ops'], 'enums': {'kind': 'min'}}
+SHRINK = {'lists': ['ops', 'items'], 'enums': {'keyfn': None}}
 
 ALPHABET = ([['push', k] for k in (0, 1, 2)] + [['pop'], ['peek']] + [['removeat', i] for i in (0, 1, 2)] +
             [['dec0', i] for i in (0, 1, 2)] + [['dec1', i] for i in (0, 1, 2)])
 
 
+KEYFNS = {None: None, 'neg': lambda x: -x, 'mod3': lambda x: x % 3, 'abs': abs, 'const': lambda x: 0}
+
+
 def valid(case):
+    if case.get('kind') == 'select':
+        return (isinstance(case.get('items'), list) and all(isinstance(x, int) for x in case['items']) and case.get('keyfn') in KEYFNS
+                and isinstance(case.get('n'), int) and case['n'] >= 1 and case.get('which') in ('smallest', 'largest')
+                and (not case.get('varargs') or len(case['items']) >= 2))
     return case.get('kind') in ('min', 'max') and isinstance(case.get('ops'), list)
+
+
+@st.composite
+def selections(draw):
+    items = draw(st.lists(st.integers(-6, 6), min_size=0, max_size=9))
+    return {'kind': 'select', 'which': draw(st.sampled_from(['smallest', 'largest'])), 'items': items,
+            'n': draw(st.sampled_from([1, 1, 2, 3, 5, 12])), 'keyfn': draw(st.sampled_from([None, None, 'neg', 'mod3', 'abs', 'const'])),
+            'varargs': len(items) >= 2 and draw(st.booleans())}
 
 
 @st.composite
@@ -51,6 +66,7 @@ def histories(draw, max_ops, min_ops=0):
         st.tuples(st.just('push'), st.integers(0, kr)),
         st.tuples(st.just('pop')), st.tuples(st.just('peek')),
         st.tuples(st.just('dec'), st.integers(0, 30), st.integers(0, kr)),
+        st.tuples(st.just('inc'), st.integers(0, 30), st.integers(1, 3)),       # an attempt on the wrong side: refused
         st.tuples(st.just('remove'), st.integers(0, 30)),
         st.tuples(st.just('len')))
     ops = [list(draw(op)) for _ in range(n)]
@@ -62,11 +78,13 @@ def jobs(tier):
     if tier == 'quick':
         for s in range(16):
             js.append({'kind': 'gen', 'n': 400, 'max_ops': 60, 'min_ops': 0, 'shard': s})
+            js.append({'kind': 'select', 'n': 250, 'shard': s})
             js.append({'kind': 'enum', 'maxlen': 5, 'shard': s})
     else:
         for s in range(16):
             js.append({'kind': 'gen', 'n': 6000, 'max_ops': 400, 'min_ops': 0, 'shard': s})
             js.append({'kind': 'gen', 'n': 150, 'max_ops': 2000, 'min_ops': 200, 'shard': s})
+            js.append({'kind': 'select', 'n': 4000, 'shard': s})
             js.append({'kind': 'enum', 'maxlen': 6, 'shard': s})
     return js
 
@@ -80,6 +98,8 @@ def run_job(job, seed, sink):
                     ops = [ALPHABET[j] for j in seq]
                     sink.fast({'kind': 'min' if (i // 16) % 2 == 0 else 'max', 'ops': ops})
                 i += 1
+    elif job['kind'] == 'select':
+        hyp_drive(selections(), job['n'], seed, sink)
     else:
         hyp_drive(histories(job['max_ops'], job['min_ops']), job['n'], seed, sink)
 
@@ -92,7 +112,40 @@ def heap_len(h):
         return -1
 
 
+def check_select(case):
+    """utils.smallest / utils.largest against sorted(): min(n, len) items of the input, and (when fewer than all are asked
+    for) their keys are the n best keys in order."""
+    from collections import Counter
+    from graphtage.utils import largest, smallest
+    out = Outcome()
+    common.LOOPS.reset(400000)
+    items, n, which = case['items'], case['n'], case['which']
+    kf = KEYFNS[case.get('keyfn')]
+    keyof = kf or (lambda x: x)
+    fn = smallest if which == 'smallest' else largest
+    with guard(f'utils.{which}'):
+        kw = {'n': n}
+        if kf is not None:
+            kw['key'] = kf
+        got = list(fn(*items, **kw)) if case.get('varargs') else list(fn(list(items), **kw))
+    want_n = min(n, len(items))
+    desc = f"{which}({'*' if case.get('varargs') else ''}{items!r}, n={n}, key={case.get('keyfn')})"
+    if len(got) != want_n:
+        out.fail(f'{which}-count', f"{desc} yields {got!r}: {len(got)} items, expected {want_n}")
+    elif Counter(got) - Counter(items):
+        out.fail(f'{which}-invents-items', f"{desc} yields {got!r}, not a sub-multiset of the input")
+    elif len(items) > n:
+        ref = sorted((keyof(x) for x in items), reverse=(which == 'largest'))[:n]
+        if [keyof(x) for x in got] != ref:
+            out.fail(f'{which}-not-best', f"{desc} yields {got!r} (keys {[keyof(x) for x in got]}), the {n} best keys are {ref}")
+    out.nontrivial = len(items) > n and len(set(map(keyof, items))) > 1
+    out.label('select:' + which, 'key:' + str(case.get('keyfn')))
+    return out
+
+
 def check(case):
+    if case.get('kind') == 'select':
+        return check_select(case)
     out = Outcome()
     common.LOOPS.reset(200000 + 2000 * len(case['ops']))      # heap operations are tiny: keep hangs cheap
     maxheap = case['kind'] == 'max'
@@ -102,6 +155,7 @@ def check(case):
     nid = 0
     popped = False
     post = False
+    refused = False
     executed = 0
 
     def best():
@@ -159,6 +213,20 @@ def check(case):
                 executed += 1
                 if popped:
                     post = True
+            elif name == 'inc':
+                # a change on the wrong side of the current key: documented to be refused with ValueError, after which the
+                # queue must go on as if nothing happened (if a version accepts it, the model follows the new key)
+                if not live:
+                    continue
+                node, item = live[op[1] % len(live)]
+                nk = item[0] - op[2] if maxheap else item[0] + op[2]
+                try:
+                    h.decrease_key(node, ReversedComparator(nk) if maxheap else nk)
+                except ValueError:
+                    refused = True
+                else:
+                    item[0] = nk
+                executed += 1
             elif name in ('remove', 'removeat'):
                 if not live or (name == 'removeat' and op[1] >= len(live)):
                     continue
@@ -192,6 +260,8 @@ def check(case):
             out.fail('len-disagrees', f"after draining: len(heap) = {heap_len(h)}")
     out.nontrivial = post
     out.label('max' if maxheap else 'min')
+    if refused:
+        out.label('refused-key-change')
     if post:
         out.label('decrease/remove-after-pop')
     out.info = {'executed_ops': executed}
